@@ -285,6 +285,67 @@ def check_integrals(case):
     return fails, (len(x), _dig(er), _dig(et))
 
 
+IV_OPS = [("read-layout",), ("read-closed", True), ("read-closed", False), ("write", 0, 0, -7.5), ("write", 1, 0, 4.25),
+          ("write", 0, 1, 9.0), ("write-flat", 2, -1.0), ("extend-constant",), ("extend-linspace",), ("read-items",)]
+
+
+@kind("interval-history")
+def check_interval_history(case):
+    """the interval view is a mutable object: after ANY sequence of reads, writes and extensions every
+    read (item access, 2-D layout, closed-interval layout, length) agrees with a plain list model"""
+    from traffic_weaver.interval import IntervalArray
+    L, n, ops = case["L"], case["n"], case["ops"]
+    model = [float((7 * i) % 11 + i) for i in range(L)]
+    ia = IntervalArray(np.array(model), n)
+    key = {"helper": "IntervalArray-history"}
+    fails = []
+
+    def layout(m):
+        rows = -(-len(m) // n)
+        return [[m[r * n + c] if r * n + c < len(m) else math.nan for c in range(n)] for r in range(rows)]
+    for step, op in enumerate(ops):
+        op = tuple(op)
+        if op[0] == "write":
+            f = op[1] * n + op[2]
+            if not (0 <= f < len(model)):
+                continue
+            ia[op[1], op[2]] = op[3]
+            model[f] = op[3]
+        elif op[0] == "write-flat":
+            if not (0 <= op[1] < len(model)):
+                continue
+            ia[op[1]] = op[2]
+            model[op[1]] = op[2]
+        elif op[0] == "extend-constant":
+            if len(model) + 2 * n > 64:
+                continue
+            ia.extend_constant()
+            model = [model[0]] * n + model + [model[-1]] * n
+        elif op[0] == "extend-linspace":
+            if len(model) <= n or len(model) + 2 * n > 64:
+                continue
+            ls = 2 * model[0] - model[n]
+            rs = 2 * model[-1] - model[-n - 1]
+            ia.extend_linspace()
+            model = [ls + (model[0] - ls) * i / n for i in range(n)] + model + [model[-1] + (rs - model[-1]) * i / n for i in range(1, n + 1)]
+        # every observation after every step
+        got = ia.to_2d_array()
+        exp = np.array(layout(model), dtype=float).reshape(-1, n)
+        if got.shape != exp.shape or not np.allclose(got, exp, rtol=1e-12, atol=1e-12, equal_nan=True):
+            fails.append(fail("layout-after-history", {"step": step, "op": op, "observed": got, "expected": exp}, key))
+            break
+        if len(model) > n:
+            c = ia.to_2d_array_closed_intervals(drop_last=False)
+            e2 = np.array([row + [exp[r + 1][0] if r + 1 < len(exp) else math.nan] for r, row in enumerate(exp.tolist())], dtype=float)
+            if c.shape != e2.shape or not np.allclose(c, e2, rtol=1e-12, atol=1e-12, equal_nan=True):
+                fails.append(fail("closed-layout-after-history", {"step": step, "op": op}, key))
+                break
+        if len(ia) != len(model) or not _close_seq([ia[i // n, i % n] for i in range(len(model))], model):
+            fails.append(fail("items-after-history", {"step": step, "op": op}, key))
+            break
+    return fails, (L, n, tuple(tuple(o) for o in ops))
+
+
 def _structured(L):
     return [tuple(range(L)), tuple(i * i for i in range(L)), tuple(3 * i + (i % 3) for i in range(L)),
             tuple(-5 + i // 2 for i in range(L))]
@@ -326,7 +387,7 @@ def harnesses(tier, seed):
             a = ctx.choose(_structured(L), "pattern")
         d = ctx.choose(["both", "left", "right"], "direction")
         for n in ext_ns:
-            ends = [(-3.0, 11.5), (a[0] - 1, a[-1] + 1), (a[0] - 0.25, a[-1] + 4)]
+            ends = [(-3.0, 11.5), (a[0] - 1, a[-1] + 1), (a[0] - 0.25, a[-1] + 4), (0.0, 0.0), (0, 0), (-0.0, a[-1] + 1)]
             if len(a) > n:
                 ends.insert(0, (None, None))
                 ends.append((None, a[-1] + 2))
@@ -375,7 +436,16 @@ def harnesses(tier, seed):
         for y in (itertools.product(A.VPM, repeat=len(x)) if len(x) <= 4 else A.spanning_values(len(x))):
             judge(ctx, check_integrals, {"x": [v * img for v in x], "y": list(y)}, calls=5, bulk=True)
 
-    return [{"name": "oversample", "body": b_oversample}, {"name": "extend", "body": b_extend},
+    def b_interval_history(ctx):
+        L = ctx.choose([5, 8, 9, 12], "L")
+        n = ctx.choose([2, 3, 4], "n")
+        ops = []
+        for d in range(3):
+            ops.append(ctx.choose(IV_OPS, "op%d" % d))
+        judge(ctx, check_interval_history, {"L": L, "n": n, "ops": [list(o) for o in ops]}, calls=4 * len(ops))
+
+    return [{"name": "interval-histories", "body": b_interval_history},
+            {"name": "oversample", "body": b_oversample}, {"name": "extend", "body": b_extend},
             {"name": "append", "body": b_append}, {"name": "interval-view", "body": b_interval},
             {"name": "average", "body": b_average}, {"name": "average-roundtrip", "body": b_roundtrip},
             {"name": "integrals", "body": b_integrals}]
